@@ -49,8 +49,8 @@ func (engine) Run(c any) lib.Result {
 	cs := c.(*gg.Case)
 	obs := gg.Run(cs, gg.RunOpts{})
 	res := lib.Result{Obs: obs, Tags: gg.Tags(cs, obs)}
-	if obs.Class == "compile" {
-		res.Tags = append(res.Tags, "not-in-model:compile-error")
+	if obs.Class == "compile" || obs.Class == "budget" {
+		res.Tags = append(res.Tags, "not-in-model:"+obs.Class)
 		return res
 	}
 	res.CoqTerm = cs.CoqCase(obs)
